@@ -75,4 +75,4 @@ let main_loop (handle : string list -> string) =
       print_string out; print_char '\n'
     done
   with End_of_file -> ());
-  flush stdout
+  Stdlib.flush Stdlib.stdout
